@@ -66,14 +66,31 @@ def mode_api(spec):
     root = spec["root"]
     sys.path.insert(0, root)
     handles = {}
+    strict = bool(spec.get("warnings_as_errors"))
+    api_warnings = []
+
+    def api(thunk):
+        """one call into the library's hook API; in `strict` histories the program runs it with warnings turned into
+        errors (python -W error / pytest's filterwarnings = error), survives whatever that raises and carries on"""
+        if not strict:
+            return thunk()
+        with warnings.catch_warnings():
+            warnings.simplefilter("error")
+            try:
+                return thunk()
+            except Warning as e:
+                api_warnings.append(type(e).__name__)
+                return None
+
     for o in spec["ops"]:
         chk = o.get("checker")
         if isinstance(chk, list):
             chk = tuple(chk)
         if o["op"] == "install":
-            handles[o["h"]] = jaxtyping.install_import_hook(o["names"], chk)
+            handles[o["h"]] = api(lambda: jaxtyping.install_import_hook(o["names"], chk))
         elif o["op"] == "uninstall":
-            handles[o["h"]].uninstall()
+            if handles.get(o["h"]) is not None:
+                api(handles[o["h"]].uninstall)
         elif o["op"] == "import":
             importlib.import_module(o["module"])
         elif o["op"] in ("reimport", "edit_reimport"):
@@ -99,6 +116,20 @@ def mode_api(spec):
                 importlib.import_module(o["module"])
             except SyntaxError:
                 pass
+        elif o["op"] == "with" and strict:
+            # the with statement spelled out, so that only the library's own enter / exit run under the strict filter
+            cm = api(lambda: jaxtyping.install_import_hook(o["names"], chk))
+            if cm is not None:
+                api(cm.__enter__)
+                exc = (None, None, None)
+                try:
+                    for m in o["inside"]:
+                        importlib.import_module(m)
+                    if o.get("leave_by_exception"):
+                        importlib.import_module("jtv_optional_module_that_does_not_exist")
+                except ImportError:
+                    exc = sys.exc_info()
+                api(lambda: cm.__exit__(*exc))
         elif o["op"] == "with":
             try:
                 with jaxtyping.install_import_hook(o["names"], chk):
@@ -109,10 +140,11 @@ def mode_api(spec):
             except ImportError:
                 pass
     for h in handles.values():
-        h.uninstall()
-        h.uninstall()  # double uninstall must be harmless
+        if h is not None:
+            api(h.uninstall)
+            api(h.uninstall)  # double uninstall must be harmless
     leftover = [type(f).__name__ for f in sys.meta_path if "axtyping" in type(f).__name__]
-    return {"modules": observe(forest_names(root)), "meta_path_leftover": leftover}
+    return {"modules": observe(forest_names(root)), "meta_path_leftover": leftover, "api_warnings": api_warnings}
 
 
 TEST_FILE = '''
